@@ -241,22 +241,26 @@ func main() {
 	if ev, ok := netCov["evaluations"].(int); ok {
 		total += ev
 	}
+	// part (iii): a peer's stray vote of a far future round, then the node walks through that round
+	strayCov := core.Coverage{}
+	consnet.RunSoloStrayVoteDriver(run, strayCov)
 	run.Finish(core.Coverage{
-		"part_ii_live_node":           netCov,
-		"evaluations":                 total,
-		"distinct_nontrivial":         classes.Len(),
-		"rule":                        "receiver = one real ConsensusState in each of 8 states (start, Propose without proposal, proposal without block, Prevote, Precommit, Commit waiting for the block, locked in round 1, NewHeight of height 2); inputs through the real ConsensusReactor.Receive: every one of the 9 registered consensus messages (valid instance taken from the live execution or signed by the Byzantine validator) with every exported field, recursively, set in turn to each boundary value (15 integers, 5 byte-slice shapes, 3 bit-array shapes, nil pointers, 3 signature shapes), each also re-signed by the Byzantine validator where it is the legitimate signer; every valid message on every wrong channel; every single-byte substitution {00,01,7f,80,ff} and every truncation of every valid encoding; every 1-byte string on every channel (thorough: every 2-byte string); plus every single-mutation block of the C02 list proposed by the round's Byzantine proposer. distinct_nontrivial = distinct (state, message type) classes exercised",
-		"executions":                  executions,
-		"rejected_state_unchanged":    rejected,
-		"accepted_state_changed":      accepted,
-		"panics_contained_in_receive": contained,
-		"node_goroutine_deaths":       deaths,
-		"malformed_blocks_proposed":   len(blockScs),
-		"malformed_block_deaths":      blockDeaths,
-		"chains_cut_by_deadline":      unfinished,
-		"cases_by_message_type":       byType,
-		"exhaustive":                  unfinished == 0,
-		"samples":                     samples.List(),
+		"part_iii_stray_future_round_votes": strayCov,
+		"part_ii_live_node":                 netCov,
+		"evaluations":                       total,
+		"distinct_nontrivial":               classes.Len(),
+		"rule":                              "receiver = one real ConsensusState in each of 8 states (start, Propose without proposal, proposal without block, Prevote, Precommit, Commit waiting for the block, locked in round 1, NewHeight of height 2); inputs through the real ConsensusReactor.Receive: every one of the 9 registered consensus messages (valid instance taken from the live execution or signed by the Byzantine validator) with every exported field, recursively, set in turn to each boundary value (15 integers, 5 byte-slice shapes, 3 bit-array shapes, nil pointers, 3 signature shapes), each also re-signed by the Byzantine validator where it is the legitimate signer; every valid message on every wrong channel; every single-byte substitution {00,01,7f,80,ff} and every truncation of every valid encoding; every 1-byte string on every channel (thorough: every 2-byte string); plus every single-mutation block of the C02 list proposed by the round's Byzantine proposer. distinct_nontrivial = distinct (state, message type) classes exercised",
+		"executions":                        executions,
+		"rejected_state_unchanged":          rejected,
+		"accepted_state_changed":            accepted,
+		"panics_contained_in_receive":       contained,
+		"node_goroutine_deaths":             deaths,
+		"malformed_blocks_proposed":         len(blockScs),
+		"malformed_block_deaths":            blockDeaths,
+		"chains_cut_by_deadline":            unfinished,
+		"cases_by_message_type":             byType,
+		"exhaustive":                        unfinished == 0,
+		"samples":                           samples.List(),
 	}, []string{"a panic inside Reactor.Receive is contained by MConnection._recover in a real node (peer disconnected) and is allowed (DESIGN §6.3); a panic on the consensus goroutine kills the process and is a violation",
 		"'fails validation' is decided by a reference predicate (decodes; signature verifies for the claimed validator / the round's proposer; part proof verifies); only then must the round state stay exactly as it was",
 		"part (ii) runs a live single-validator node with real goroutines: its scenario space is enumerated exhaustively, the in-process schedule is not controlled; oracles are progress-based, a missed deadline is inconclusive, a candidate is reported only when it reproduces 5/5 alone"})
